@@ -6,6 +6,7 @@ row, cover padding, closing rounds) are in the second half, over the model of `b
 -/
 import Wheatley.Lemmas.Gen
 import Wheatley.Lemmas.StartRow
+import Wheatley.Model.Bot
 namespace Wheatley.C01
 
 /-- One change never loses or duplicates a bell: for every stage, every row and **every** place
@@ -47,4 +48,63 @@ example : ∃ g, mkGrandsire 7 none = some g ∧ g.Permuting ∧ g.startRow = ro
     (evRows (g.runOps [.next true, .bob, .next false, .next true, .single, .next false]).2).length = 4 := by
   refine ⟨(mkGrandsire 7 none).get (by decide), by simp, ?_, ?_, ?_⟩ <;> decide
 
+/-! ### Bot level: opening row, cover padding, closing rounds -/
+
+/-- The start row of a generator of stage `stage` is a prefix of the opening row of any tower at least
+that big: the bells appended for the tower (`generate_starting_row(number_of_bells, …)`) come after
+the ones appended for the stage. -/
+theorem opening_extends_start_row (stage n : Nat) (cs : Option Row) (sr op : Row) (hle : stage ≤ n)
+    (hs : startingRow stage cs = some sr) (ho : startingRow n cs = some op) : sr <+: op := by
+  unfold startingRow at hs ho
+  cases cs with
+  | none =>
+    simp only [Option.some.injEq] at hs ho
+    subst hs ho
+    obtain ⟨k, rfl⟩ := Nat.exists_eq_add_of_le hle
+    refine ⟨(List.range' stage k).map (· + 1), ?_⟩
+    simp only [rounds, List.range_eq_range', ← List.map_append]
+    congr 1
+    have := List.range'_append_1 (s := 0) (m := stage) (n := k)
+    simpa using this
+  | some c =>
+    simp only at hs ho
+    split at hs
+    · cases hs
+    · rename_i hd
+      simp only [hd, Bool.false_eq_true, if_false, Option.some.injEq] at hs ho
+      subst hs ho
+      obtain ⟨k, rfl⟩ := Nat.exists_eq_add_of_le hle
+      unfold appendMissing
+      refine ⟨((List.range' stage k).map (· + 1)).filter (fun b => !c.contains b), ?_⟩
+      rw [List.append_assoc, ← List.filter_append, ← List.map_append]
+      congr 3
+      have := List.range'_append_1 (s := 0) (m := stage) (n := k)
+      simpa [List.range_eq_range'] using this
+
+/-- **The Bot's padding completes the row**: when the generated row is a permutation of the
+generator's start row and that start row is a prefix of the opening row, the row the Bot rings —
+the generated row followed by the opening row's tail — is a permutation of the opening row. -/
+theorem bot_row_complete (b : Bot) (g' : Gen) (r sr : Row) (calls : List String)
+    (h1 : b.ringingOpening = false) (h2 : b.ringingRounds = false) (hn : b.gen.next b.hand = .ok g' r calls)
+    (hperm : r.Perm sr) (hpre : sr <+: b.openingRow) :
+    (b.generateNextRow).1.row.Perm b.openingRow := by
+  simp only [Bot.generateNextRow, h1, h2, hn, Bool.false_eq_true, if_false]
+  obtain ⟨t, ht⟩ := hpre
+  have hl : r.length = sr.length := hperm.length_eq
+  rw [← ht, hl]
+  simp only [List.length_append, List.drop_left']
+  split
+  · exact hperm.append_right t
+  · rename_i hlt
+    have : t = [] := by
+      apply List.eq_nil_of_length_eq_zero; omega
+    subst this; simpa using hperm
+
+/-- Opening row and closing rounds are rung as they are. -/
+theorem bot_opening_and_rounds (b : Bot) :
+    (b.ringingOpening = true → (b.generateNextRow).1.row = b.openingRow) ∧
+    (b.ringingOpening = false → b.ringingRounds = true → (b.generateNextRow).1.row = b.rounds) := by
+  constructor
+  · intro h; simp [Bot.generateNextRow, h]
+  · intro h1 h2; simp [Bot.generateNextRow, h1, h2]
 end Wheatley.C01
